@@ -118,10 +118,21 @@ def gen_case(rng, flavour):
             res = rng.randrange(nh, nh + 3)
             lines.append(f"down {res} {g} {rng.choice([scaled, scaled + 1, scaled * 2, scaled * 3 + 1, 2 ** 20])}")
             stale[res] = stale.get(g, False)
-        elif r < 0.97:
+        elif r < 0.955:
             lines.append(f"cc {h} {hd()} {rng.randint(0, 1)}")
-        else:
+        elif r < 0.97:
             lines.append(f"isz {h} {hd()}")
+        elif r < 0.98:
+            lines.append(rng.choice(["enab", "disab"]) + f" {h}")
+        elif r < 0.99:
+            lines.append(f"sethf {h} {rng.randint(1, 4)}")
+        else:
+            res = rng.randrange(nh, nh + 3)
+            g = hd()
+            mx = rng.choice([M, M // 2, M // 3 + 1, mh_for_scaled(scaled * 2), mh_for_scaled(max(scaled, 1) - 1),
+                             rng.randint(1, U64), 0, 93]) if scaled else rng.choice([0, 1000, U64])
+            lines.append(f"downmh {res} {g} {mx}")
+            stale[res] = stale.get(g, False)
     return lines
 
 
@@ -177,7 +188,7 @@ def oracle(case, impl):
         da = parse_half(a)
         if o == "new" and da:
             info[h] = {"num": int(da["num"]), "mh": int(da["mh"]), "stale": None}
-        elif o == "down" and da:
+        elif o in ("down", "downmh") and da:
             src = info.get(int(w[2]), {})
             info[h] = {"num": int(da["num"]), "mh": int(da["mh"]), "stale": src.get("stale")}
         me = info.get(h, {"num": 0, "mh": 0, "stale": None})
@@ -185,7 +196,7 @@ def oracle(case, impl):
             operands = [me]
             if o in ("merge", "addfrom", "cc", "isz") and len(w) > 2:
                 operands.append(info.get(int(w[2]), me))
-            if o == "down":
+            if o in ("down", "downmh"):
                 operands.append(info.get(int(w[2]), me))
             zero = (o == "addab" and w[3] == "0") or (o == "addmanyab" and any(t.endswith(":0") for t in w[2:]))
             if any(x["num"] != 0 and x["mh"] != 0 for x in operands):
